@@ -266,6 +266,7 @@ def main(argv=None):
     ap.add_argument("--legs", default=None)
     ap.add_argument("--keep", action="store_true")
     ap.add_argument("--no-min", action="store_true")
+    ap.add_argument("--ignore-known", action="store_true", help="development aid: report known findings as violations (to obtain their replay files)")
     args = ap.parse_args(argv)
     prop = args.prop
     if prop not in PROPS:
@@ -323,7 +324,7 @@ def _main(args, prop, cfg, tier, seed0, t0, scratch):
     budget = cfg.get("budget", {"quick": 240, "thorough": 3600})[tier]
     results, crashes, timed_out = run_batch(binpath, scratch, prop, tier, seed0, total, legs, budget, extra_env=cfg.get("env"))
     wall_runs = time.time() - t0
-    known = load_known()
+    known = [] if args.ignore_known else load_known()
 
     # ---- classify every violation EVENT ------------------------------------
     groups = collections.OrderedDict()  # (leg, class) -> list of (result, violation)
